@@ -116,7 +116,8 @@ def c13(ctx):
     return V.finish(ctx, "model_checking",
                     rule="B1 (exhaustive): TLC computes CRC-32/MPEG-2 of all 65 793 byte strings of length 0..2, compared with ComputeCRC. "
                          "B3: all single-bit strings of lengths 1..16, a stride (quick) or all (thorough) single-bit strings of lengths 32,64,183,184,188,1021,1024, "
-                         "random strings up to 1024 bytes; TLC checks crc = Crc32(data) and that ComputeCRC(data ++ crc) = 0. class = (pattern kind, length bucket)",
+                         "random strings up to 1024 bytes; TLC checks crc = Crc32(data) and that ComputeCRC(data ++ crc) = 0; sections emitted by the library itself (UpdateData of created signals with "
+                         "alignment stuffing 0..7, FilterPMTPacketsToPids outputs) must have section_length consistent and CRC residue zero. class = (pattern kind, length bucket) or (emitter, stuffing)",
                     trace_module="Trace_C13", sigfn=V.default_sig,
                     assumptions=["TLC/SANY and the JVM", "CommunityModules Bitwise (^^)", "Crc.tla: serial definition = table form (MC_C13) and catalogue check value 0x0376E6E7",
                                  "sections emitted by the library (filtered PMT, splice_info_section) are checked for residue 0 in C14 and C09"])
@@ -479,3 +480,18 @@ def c05(ctx):
                     trace_module="Trace_C05", sigfn=c05_sig,
                     assumptions=["level is exploration: a TLA+ model cannot observe Go panics/loops; the specification supplies the contract and the structure of the input space",
                                  "hang = no result within 4 s in the worker; oom = live heap above 512 MB", "parsers are read-only with respect to the caller's buffer, including the printing and re-encoding of the returned object"])
+
+
+# ---------------------------------------------------------------- X01 (spec growth, not a listed property)
+
+@prop("X01", "Trace_X01")
+def x01(ctx):
+    summ = V.gen_traces(ctx, shards=8)
+    V.validate(ctx, "Trace_X01", summ, V.default_sig, par=8, timeout=3000)
+    ctx.states = 0
+    return V.finish(ctx, "exploration",
+                    rule="system-level composition Demux: random single-program multiplexes (leading garbage, foreign packets, a stale PMT before the PAT, a PMT unit tail after it, "
+                         "PMT carriages with every stuffing style, SCTE-35 sections on the signalled PID, partial tail); Sync, ReadPAT, ReadPMT and NewSCTE35 are applied in the order of "
+                         "cli/parsefile.go and TLC checks each result against the composition of Sync!First, Pat, Pmt carriage and the multiplexed sections. class = (#signals, results)",
+                    trace_module="Trace_X01", sigfn=V.default_sig,
+                    assumptions=["not one of the given properties: reported for information; not registered in MANIFEST.json"])
